@@ -56,10 +56,27 @@ def rot (r : Int) : Val :=
     let mag := roundHalfEvenDiv (r * r * 1000000) (4733 * 4733)
     .flt ((if r < 0 then -mag else mag) * MICRO)
 
+/-- Codes the standard sets aside as a block ("regional use", "reserved for future use", "spare"): a
+code of such a block that is not itself a member of the library's enumeration is reported as the
+block's representative member.  ITU-R M.1371-5: ship and cargo types (Table 53: second digit 5–8
+reserved for future use, 56–57 spare) and the station type of message 23 (6–9 regional use, 10–15
+for future use). -/
+def reservedBlocks (cls : String) : List (Int × Int × Int) :=
+  if cls = "StationType" then [(6, 9, 6), (10, 15, 1)]
+  else if cls = "ShipType" then
+    [(25, 28, 25), (45, 48, 45), (56, 57, 56), (65, 68, 65), (75, 78, 75), (85, 88, 85), (95, 98, 95)]
+  else []
+
+/-- a non-member code inside a reserved block is reported as the block's representative -/
+def blockOK (members : String → List Int) (cls : String) (raw m : Int) : Bool :=
+  (reservedBlocks cls).all fun (lo, hi, rep) =>
+    !(decide (lo ≤ raw) && decide (raw ≤ hi) && !(members cls).contains raw) || m == rep
+
 /-- Does the decoded value `v` agree with what the standard assigns to a field of kind `k` holding
 the bits `bits`?  `members cls` is the member list of the library's enumeration `cls`: an
-enumeration value is the member with the raw code if there is one, and *some* member otherwise (the
-fallback member is the library's choice). -/
+enumeration value is the member with the raw code if there is one, the representative of the
+standard's reserved block the code lies in (`reservedBlocks`), and otherwise *some* member (the
+fallback member is then the library's choice). -/
 def check (members : String → List Int) (k : Kind) (bits : Bits) (v : Val) : Bool :=
   match k with
   | .u => v == .int (toNat bits)
@@ -68,7 +85,8 @@ def check (members : String → List Int) (k : Kind) (bits : Bits) (v : Val) : B
   | .e cls =>
     match v with
     | .enum c m => c == cls && (members cls).contains m &&
-        (!(members cls).contains (toNat bits : Int) || m == (toNat bits : Int))
+        (!(members cls).contains (toNat bits : Int) || m == (toNat bits : Int)) &&
+        blockOK members cls (toNat bits : Int) m
     | _ => false
   | .t => v == .str (text bits)
   | .d => v == .bytes (toBytes bits)
